@@ -224,6 +224,27 @@ def replay_record(rec: Dict[str, Any]) -> Tuple[bool, str]:
     return bool(probs), "; ".join(p[1] for p in probs)
 
 
+def deep_sample(n: int, rnd: random.Random, max_levels: int = 7) -> List[Shape]:
+    """A seeded sample of larger shapes (9..22 nodes, up to `max_levels` levels): beyond what can be enumerated, but where
+    contour threading between subtrees of different depth gets exercised (a residual fault needed 14 nodes / 6 levels)."""
+    out = set()
+    tries = 0
+    while len(out) < n and tries < n * 20:
+        tries += 1
+        target = rnd.randint(9, 22)
+        s = {1}
+        frontier = [1]
+        while frontier and len(s) < target:
+            i = frontier.pop(rnd.randrange(len(frontier)))
+            for c in (2 * i, 2 * i + 1):
+                if c < 2 ** max_levels and rnd.random() < 0.62 and len(s) < target:
+                    s.add(c)
+                    frontier.append(c)
+        if len(s) >= 9:
+            out.add(tuple(sorted(s)))
+    return sorted(out)
+
+
 def run(tier: str) -> int:
     rep = Report("C18", tier)
     depth = 4
@@ -245,7 +266,9 @@ def run(tier: str) -> int:
         "over two children, same-level nodes in order and >= ux apart, returned bounds = true bounding box, second and third "
         "layout of the same nodes give the same coordinates, the mirrored shape gives mirrored coordinates.")
     rep.assumptions = ["shapes deeper than the bound are outside the claim"]
-    items = [(s, "plain") for s in shapes + extra]
+    deep = deep_sample(1200 if tier == "quick" else 25000, random.Random(seed() + 18))
+    rep.bounds["deep_sample"] = f"{len(deep)} seeded random shapes with 9..22 nodes and up to 7 levels (sampled, not exhaustive)"
+    items = [(s, "plain") for s in shapes + extra + deep]
     if tier != "quick":
         items += [(s, "math") for s in shapes]
     random.Random(seed()).shuffle(items)
